@@ -93,6 +93,14 @@ def raw_cases(rng, n):
              for x, y in ((0, 0), (1, 1), (0, 1), (1, None), (0, 2)) for base in (l1, srt)
              if base is srt or x == y]        # a non-empty window of an unsorted table is not determined
     fixed += [("chain", ("un", ("slice", x, y), mp.DEFAULT, srt), l1) for x, y in ((0, 0), (0, 1), (2, None))]
+    # a window of a two-term order, re-sorted by the same terms in another order (or by one of them plus the rest), windowed again
+    l3 = ("leaf", 3, ("sql", 0), [a, b], [{a: 1, b: 30}, {a: 2, b: 10}, {a: 3, b: 20}, {a: 4, b: 5}], (0, None))
+    for base in (l3, ("chain", l3, ("leaf", 4, ("sql", 0), [a, b], [{a: 0, b: 40}], (0, None)))):
+        first = ("un", ("slice", 0, 3), mp.DEFAULT, ("un", ("sort", [(("ref", a), True), (("ref", b), True)]), mp.DEFAULT, base))
+        for again in ([(("ref", b), True), (("ref", a), True)], [(("ref", b), True)]):
+            for w in ((0, 1), (1, 2)):
+                if len(again) == 2 or True:
+                    fixed.append(("un", ("slice", w[0], w[1]), mp.DEFAULT, ("un", ("sort", again), mp.DEFAULT, first)))
     for k in range(n):
         p, cols, ordered = sp.gen_sqlprog(rng, rng.choice([1, 2, 3, 4, 5]))
         if k < len(fixed):
